@@ -257,3 +257,9 @@ ASSUMPTIONS = [
 EXPLANATION = ('statuses forked, modified strings and the clock symbolic; obligation per task: purged <=> status deleted and modified '
                'parses as an in-range i64 older than now-180d (stated with an independent regular-expression encoding); the purge is '
                'exactly one Delete per purged task carrying the old content; after syncing with a concurrent edit in both orders the task is absent')
+
+
+KANI = {
+    'quick': [('k_chrono_range', 'SUCCESSFUL')],
+    'thorough': [('k_chrono_range', 'SUCCESSFUL'), ('k_chrono_range_reach', 'FAILED')],
+}
